@@ -29,6 +29,33 @@ type errTrace struct {
 	TokPos  []int  `json:"tokpos"` // token start offsets (engine lexer)
 	Out     []int  `json:"out"`
 	Panic   string `json:"panic"`
+	// the same error object printed again after ANOTHER erroneous statement was parsed, bound and printed
+	// (an error is a value: what a later statement does cannot change it); HasLate = the step was performed
+	HasLate bool  `json:"haslate"`
+	Late    []int `json:"late"`
+}
+
+func withLate(tr errTrace, err error) errTrace {
+	tr.Late = []int{}
+	if tr.Panic == "" && err != nil {
+		tr.HasLate, tr.Late = true, lateRender(err)
+		if tr.Late == nil {
+			tr.Late = []int{}
+		}
+	}
+	return tr
+}
+
+// lateRender: parse and print two other truncated statements, then print err again.
+func lateRender(err error) []int {
+	defer func() { recover() }()
+	for _, q2 := range []string{"select * where key = 'zz' &", "put ('other'"} {
+		o2, _ := RunOn(q2, nil, RunOpts{Mode: "row", BSize: 2, Cache: true, NoLog: true})
+		if o2.err != nil {
+			BindAndRender(o2.err, q2, 3)
+		}
+	}
+	return bi([]byte(err.Error()))
 }
 
 func tokenStarts(q string) []int {
@@ -78,7 +105,7 @@ func init() {
 				if out.Stats.Cases%3000 == 1 && vi == 0 {
 					out.Stats.sample(map[string]any{"query": q, "pos": ec.Pos, "pad": ec.Pad, "rendered": s})
 				}
-				out.Trace("errs", errTrace{ID: fmt.Sprintf("%s#%d", id, vi), QB: ec.Q, Pos: ec.Pos, Pad: ec.Pad, EKind: "direct", TokPos: []int{}, Out: bi([]byte(s)), Panic: p})
+				out.Trace("errs", errTrace{ID: fmt.Sprintf("%s#%d", id, vi), QB: ec.Q, Pos: ec.Pos, Pad: ec.Pad, EKind: "direct", TokPos: []int{}, Out: bi([]byte(s)), Panic: p, Late: []int{}})
 			}
 		})
 		if err != nil {
@@ -140,7 +167,7 @@ func init() {
 				if out.Stats.Cases%300 == 1 && vi == 1 {
 					out.Stats.sample(map[string]any{"query": q, "pos": pos, "kind": kind, "rendered": s})
 				}
-				out.Trace("errs", errTrace{ID: fmt.Sprintf("%s#%d", id, vi), Q: q, QB: bi([]byte(q)), Pos: pos, Pad: effPad, EKind: kind, TokPos: tokenStarts(q), Out: bi([]byte(s)), Panic: p})
+				out.Trace("errs", withLate(errTrace{ID: fmt.Sprintf("%s#%d", id, vi), Q: q, QB: bi([]byte(q)), Pos: pos, Pad: effPad, EKind: kind, TokPos: tokenStarts(q), Out: bi([]byte(s)), Panic: p}, o.err))
 			}
 		})
 		if err != nil {
@@ -194,7 +221,7 @@ func init() {
 			if out.Stats.Cases%3000 == 1 {
 				out.Stats.sample(map[string]any{"query": q, "pos": pos, "kind": kind, "rendered": s})
 			}
-			out.Trace("errs", errTrace{ID: id, Q: q, QB: bi([]byte(q)), Pos: pos, Pad: effPad, EKind: kind, TokPos: tokenStarts(q), Out: bi([]byte(s)), Panic: p})
+			out.Trace("errs", withLate(errTrace{ID: id, Q: q, QB: bi([]byte(q)), Pos: pos, Pad: effPad, EKind: kind, TokPos: tokenStarts(q), Out: bi([]byte(s)), Panic: p}, o.err))
 		})
 		if err != nil {
 			out.Infra = append(out.Infra, err.Error())
@@ -255,7 +282,7 @@ func init() {
 			if i%700 == 0 {
 				out.Stats.sample(map[string]any{"query": q, "pos": pos, "kind": kind, "rendered": s})
 			}
-			out.Trace("errs", errTrace{ID: id, Q: q, QB: bi([]byte(q)), Pos: pos, Pad: effPad, EKind: kind, TokPos: tokenStarts(q), Out: bi([]byte(s)), Panic: p})
+			out.Trace("errs", withLate(errTrace{ID: id, Q: q, QB: bi([]byte(q)), Pos: pos, Pad: effPad, EKind: kind, TokPos: tokenStarts(q), Out: bi([]byte(s)), Panic: p}, o.err))
 		}
 	}
 }
